@@ -86,13 +86,39 @@ pub fn check_tags(rep: &mut Report, rng: &mut Rng, parts: &[Vec<String>], label:
     }
     for n in buffer_lengths(needed, rng) {
         let mut g = Guarded::new(n, 0xCC, under_miri());
-        let r = catch(|| Tags::from_parts(parts, g.slice()).map(|t| (t.as_bytes().len(), diff_tags(parts, t))));
+        // besides the tags' own accessors: an event built on this very value (in a buffer larger than needed the value
+        // must still be exactly the tags, or the event constructors lay the content out in the wrong place)
+        let r = catch(|| {
+            Tags::from_parts(parts, g.slice()).map(|t| {
+                let mut d = diff_tags(parts, t);
+                if t.as_bytes().len() <= 65_535 {
+                    let content = b"after the tags";
+                    let mut ebuf = vec![0x5Au8; Event::output_size_needed(t.as_bytes().len(), content.len()) + 8];
+                    match Event::from_parts(Id::from_bytes([1; 32]), Kind::from_u16(1), Pubkey::from_bytes([2; 32]), Sig::from_bytes([3; 64]), t, Time::from_u64(5), content, &mut ebuf) {
+                        Ok(ev) => {
+                            if ev.content() != content {
+                                d.push(format!("an event built on the value has content of {} bytes instead of the {} given", ev.content().len(), content.len()));
+                            }
+                            match ev.tags() {
+                                Ok(et) => d.extend(diff_tags(parts, et).into_iter().map(|x| format!("event built on the value: {x}"))),
+                                Err(e) => d.push(format!("event built on the value: tags() fails: {e}")),
+                            }
+                        }
+                        Err(e) => d.push(format!("an event cannot be built on the value: {e}")),
+                    }
+                }
+                (t.as_bytes().len(), d)
+            })
+        });
         rep.count("buffer_length_cases");
         if !g.intact() {
             rep.finding("write-outside-buffer:Tags::from_parts", "", rp.clone());
         }
         match r {
             Ok(Ok((len, d))) => {
+                if n >= needed && fits && len != needed {
+                    rep.finding("value-size-depends-on-buffer:Tags::from_parts", &format!("buffer {n}, needed {needed}: the returned value is {len} bytes long"), rp.clone());
+                }
                 if n < needed {
                     rep.finding("partial-value:Tags::from_parts", &format!("buffer {n} < needed {needed} yet Ok (value of {len} bytes)"), rp.clone());
                 } else if !fits {
@@ -179,7 +205,13 @@ pub fn check_event(rep: &mut Report, rng: &mut Rng, e: &SemEvent, label: &str) {
             Id::from_bytes(e.id), Kind::from_u16(e.kind), Pubkey::from_bytes(e.pubkey), Sig::from_bytes(e.sig),
             &tags, Time::from_u64(e.created_at), e.content.as_bytes(), buf,
         )
-        .map(|ev| e.diff_pocket(ev))
+        .map(|ev| {
+            let mut d = e.diff_pocket(ev);
+            if ev.as_bytes().len() != needed {
+                d.push(format!("the value is {} bytes long, {needed} were needed and written", ev.as_bytes().len()));
+            }
+            d
+        })
         .map_err(|x| format!("{x}"))
     };
     for n in buffer_lengths(needed, rng) {
@@ -308,7 +340,13 @@ pub fn check_filter(rep: &mut Report, rng: &mut Rng, f: &SemFilter, label: &str)
         let mut g = Guarded::new(n, 0xCC, under_miri());
         let r = catch(|| {
             Filter::from_parts(&ids, &authors, &kinds, &tags, f.since.map(Time::from_u64), f.until.map(Time::from_u64), f.limit, g.slice())
-                .map(|pf| f.diff_pocket(pf))
+                .map(|pf| {
+                    let mut d = f.diff_pocket(pf);
+                    if pf.as_bytes().len() != needed {
+                        d.push(format!("the value is {} bytes long, {needed} were needed and written", pf.as_bytes().len()));
+                    }
+                    d
+                })
                 .map_err(|e| format!("{e}"))
         });
         rep.count("buffer_length_cases");
